@@ -10,6 +10,7 @@ CONSTANTS
     BugDrainWrong = FALSE
     BugLowWaterStrict = FALSE
     BugNoRereg = FALSE
+    BugCloseLeaves = FALSE
 SPECIFICATION Spec
 INVARIANTS TypeOK NoLoss WireOK ChanFifo Boundary Bound Throttled RegSync DropsOnlySealed
 CHECK_DEADLOCK FALSE
